@@ -74,10 +74,10 @@ def byte_summaries(mir):
     P[r'Vec::extend_from_slice'] = extend
     def index(se, env, pc, r, i):
         l = V(se, env, r)
-        if isinstance(i, dict) and i.get('__ty') in ('Range', 'RangeFrom', 'RangeTo', 'RangeInclusive', 'RangeFull'):
+        if isinstance(i, dict) and i.get('__ty') in ('Range', 'RangeFrom', 'RangeTo', 'RangeInclusive', 'RangeFull', 'RangeToInclusive'):
             t = i['__ty']
-            a = 0 if t in ('RangeTo', 'RangeFull') else conc(se, i[0])
-            b = len(l) if t in ('RangeFrom', 'RangeFull') else (conc(se, i[0]) if t == 'RangeTo' else conc(se, i[1]) + (1 if t == 'RangeInclusive' else 0))
+            a = 0 if t in ('RangeTo', 'RangeFull', 'RangeToInclusive') else conc(se, i[0])
+            b = len(l) if t in ('RangeFrom', 'RangeFull') else (conc(se, i[0]) if t == 'RangeTo' else conc(se, i[0]) + 1 if t == 'RangeToInclusive' else conc(se, i[1]) + (1 if t == 'RangeInclusive' else 0))
             if a > b or b > len(l):
                 se.panics.append((list(pc), 'range %d..%d out of bounds for a slice of %d bytes' % (a, b, len(l)), 'summary')); return []
             return lib.one(env, l[a:b])
@@ -317,7 +317,7 @@ def reader_summaries(S, V):
     def from_elem(se, env, pc, z, n):
         c = se.concretize(n)
         K = 40           # no buffer of these obligations is longer: a vector of K + 1 bytes makes the following read_exact fail
-        if c is not None: return lib.one(env, [z] * min(c, K + 1))
+        if c is not None: return lib.one(env, [z] * min(c, 4096))           # longer than any buffer here: a following read_exact fails either way
         # a length decoded from symbolic bytes (only on paths of a misbehaving decoder): one alternative per length
         return [(n == BitVecVal(k, n.size()), [z] * k, env.get('$state')) for k in range(K + 1)] + [(UGT(n, BitVecVal(K, n.size())), [z] * (K + 1), env.get('$state'))]
     P[r'std::vec::from_elem'] = from_elem
